@@ -142,6 +142,9 @@ class Hasher(Pickler):
     # additional 'obj' argument in Python 3.14
     def _batch_setitems(self, items, *args):
         # forces order of keys in dict to ensure consistent hash.
+        # (the items of an object pickled through __reduce__, e.g. an
+        # OrderedDict, come as a one-shot iterator: keep them for the fallback)
+        items = list(items)
         try:
             # Trying first to compare dict assuming the type of keys is
             # consistent and orderable.
